@@ -427,6 +427,12 @@ def run(chk):
             if c.callee.get("name") in ("as_secs", "as_millis", "as_micros", "from_secs", "from_millis", "from_micros", "as_secs_f32", "as_secs_f64", "subsec_millis"):
                 return False, ("And::blocking_flush converts the timeout with %s at %s: splitting it in a coarser unit rounds each side's share down "
                                "(1s / 2 becomes 0s), so a side that needs any time to flush reports failure under a short timeout" % (c.callee.get("name"), c.loc)), [], c.loc
+        # ... and never more than the caller allowed: the timeout is only ever divided (or passed on / reduced), not multiplied or added to
+        for c in b.calls(normal_only=True):
+            full = (c.callee.get("full") or c.callee.get("path") or "")
+            if c.callee.get("name") in ("mul", "add", "checked_mul", "checked_add", "saturating_mul", "saturating_add", "mul_f32", "mul_f64") and "Duration" in full:
+                return False, ("And::blocking_flush grows the timeout with %s at %s: the two sides together may then block longer than the caller allowed"
+                               % (c.callee.get("name"), c.loc)), [], c.loc
         return bool_table(b, "blocking_flush", ["left", "right"], lambda a: a["left"] and a["right"],
                           lambda d, ev: True)
     chk.ob("C01.S2.and:Emitter::blocking_flush", "And::blocking_flush flushes both sides unconditionally and returns their conjunction", and_flush)
